@@ -216,6 +216,9 @@ void *memcpy(void *dst, const void *src, size_t n)
 }
 #endif
 
+/* memset(node, 0, sizeof(cJSON)) (annotate rule R5): defined after the library source, where the node type is known */
+void *vf_memset_cjson(void *p, int c, size_t n);
+
 /* memcpy of one cJSON node (annotate rule R5): exact */
 void *vf_memcpy_cjson(void *dst, const void *src, size_t n)
 {
